@@ -1,5 +1,5 @@
-//! Fault-injecting ICU data provider (build without `icu_compiled_data`): delegates to ICU4X's
-//! compiled data, and fails the constructions the plan names ("the n-th construction in this run").
+//! Fault-injecting ICU data provider (build without `icu_compiled_data`): delegates to a provider whose
+//! `IcuDataProvider` impl is *derived* (serving ICU4X's compiled data), and fails the constructions the plan names ("the n-th construction in this run").
 use icu_datetime::{options::length, DateFormatter, DateTimeFormatter, TimeFormatter};
 use icu_decimal::FixedDecimalFormatter;
 use icu_experimental::dimension::currency::formatter::CurrencyFormatter;
@@ -49,17 +49,17 @@ impl IcuDataProvider for FaultyProvider {
         options: icu_decimal::options::FixedDecimalFormatterOptions,
     ) -> Result<FixedDecimalFormatter, icu_decimal::DecimalError> {
         gate(format!("number {locale} {:?}", options.grouping_strategy))?;
-        FixedDecimalFormatter::try_new(locale, options)
+        Derived.try_new_num_formatter(locale, options)
     }
 
     fn try_new_date_formatter(&self, locale: &DataLocale, length: length::Date) -> Result<DateFormatter, icu_datetime::DateTimeError> {
         gate(format!("date {locale} {length:?}"))?;
-        DateFormatter::try_new_with_length(locale, length)
+        Derived.try_new_date_formatter(locale, length)
     }
 
     fn try_new_time_formatter(&self, locale: &DataLocale, length: length::Time) -> Result<TimeFormatter, icu_datetime::DateTimeError> {
         gate(format!("time {locale} {length:?}"))?;
-        TimeFormatter::try_new_with_length(locale, length)
+        Derived.try_new_time_formatter(locale, length)
     }
 
     fn try_new_datetime_formatter(
@@ -68,32 +68,32 @@ impl IcuDataProvider for FaultyProvider {
         options: icu_datetime::options::DateTimeFormatterOptions,
     ) -> Result<DateTimeFormatter, icu_datetime::DateTimeError> {
         gate(format!("datetime {locale} {options:?}"))?;
-        DateTimeFormatter::try_new(locale, options)
+        Derived.try_new_datetime_formatter(locale, options)
     }
 
     fn try_new_and_list_formatter(&self, locale: &DataLocale, style: ListLength) -> Result<ListFormatter, icu_list::ListError> {
         gate(format!("list-and {locale} {style:?}"))?;
-        ListFormatter::try_new_and_with_length(locale, style)
+        Derived.try_new_and_list_formatter(locale, style)
     }
 
     fn try_new_or_list_formatter(&self, locale: &DataLocale, style: ListLength) -> Result<ListFormatter, icu_list::ListError> {
         gate(format!("list-or {locale} {style:?}"))?;
-        ListFormatter::try_new_or_with_length(locale, style)
+        Derived.try_new_or_list_formatter(locale, style)
     }
 
     fn try_new_unit_list_formatter(&self, locale: &DataLocale, style: ListLength) -> Result<ListFormatter, icu_list::ListError> {
         gate(format!("list-unit {locale} {style:?}"))?;
-        ListFormatter::try_new_unit_with_length(locale, style)
+        Derived.try_new_unit_list_formatter(locale, style)
     }
 
     fn try_new_plural_rules(&self, locale: &DataLocale, rule_type: PluralRuleType) -> Result<PluralRules, icu_plurals::PluralsError> {
         gate(format!("plural {locale} {rule_type:?}"))?;
-        PluralRules::try_new(locale, rule_type)
+        Derived.try_new_plural_rules(locale, rule_type)
     }
 
     fn try_new_currency_formatter(&self, locale: &DataLocale, options: CurrencyFormatterOptions) -> Result<CurrencyFormatter, DataError> {
         gate(format!("currency {locale} {:?}", options.width))?;
-        CurrencyFormatter::try_new(locale, options)
+        Derived.try_new_currency_formatter(locale, options)
     }
 }
 
@@ -131,3 +131,28 @@ impl IcuDataProvider for BootProvider {
         CurrencyFormatter::try_new(&DataLocale::default(), options)
     }
 }
+
+/// A provider written the way the book describes: the trait is **derived**, the type only serves data (here the data
+/// compiled into the ICU4X component crates). `FaultyProvider` builds every formatter through it, so the code the
+/// derive generates is what runs.
+#[derive(leptos_i18n::custom_provider::IcuDataProvider)]
+pub struct Derived;
+
+macro_rules! delegate {
+    ($baked:path; $($m:path),* $(,)?) => {
+        $(
+            impl icu_provider::DataProvider<$m> for Derived {
+                fn load(&self, req: icu_provider::DataRequest) -> Result<icu_provider::DataResponse<$m>, DataError> {
+                    icu_provider::DataProvider::<$m>::load(&$baked, req)
+                }
+            }
+        )*
+    };
+}
+
+delegate!(icu_decimal::provider::Baked; icu_decimal::provider::DecimalSymbolsV1Marker);
+delegate!(icu_plurals::provider::Baked; icu_plurals::provider::CardinalV1Marker, icu_plurals::provider::OrdinalV1Marker);
+delegate!(icu_list::provider::Baked; icu_list::provider::AndListV1Marker, icu_list::provider::OrListV1Marker, icu_list::provider::UnitListV1Marker);
+delegate!(icu_datetime::provider::Baked; icu_datetime::provider::calendar::TimeLengthsV1Marker, icu_datetime::provider::calendar::TimeSymbolsV1Marker, icu_datetime::provider::calendar::BuddhistDateLengthsV1Marker, icu_datetime::provider::calendar::BuddhistDateSymbolsV1Marker, icu_datetime::provider::calendar::ChineseDateLengthsV1Marker, icu_datetime::provider::calendar::ChineseDateSymbolsV1Marker, icu_datetime::provider::calendar::CopticDateLengthsV1Marker, icu_datetime::provider::calendar::CopticDateSymbolsV1Marker, icu_datetime::provider::calendar::DangiDateLengthsV1Marker, icu_datetime::provider::calendar::DangiDateSymbolsV1Marker, icu_datetime::provider::calendar::EthiopianDateLengthsV1Marker, icu_datetime::provider::calendar::EthiopianDateSymbolsV1Marker, icu_datetime::provider::calendar::GregorianDateLengthsV1Marker, icu_datetime::provider::calendar::GregorianDateSymbolsV1Marker, icu_datetime::provider::calendar::HebrewDateLengthsV1Marker, icu_datetime::provider::calendar::HebrewDateSymbolsV1Marker, icu_datetime::provider::calendar::IndianDateLengthsV1Marker, icu_datetime::provider::calendar::IndianDateSymbolsV1Marker, icu_datetime::provider::calendar::IslamicDateLengthsV1Marker, icu_datetime::provider::calendar::IslamicDateSymbolsV1Marker, icu_datetime::provider::calendar::JapaneseDateLengthsV1Marker, icu_datetime::provider::calendar::JapaneseDateSymbolsV1Marker, icu_datetime::provider::calendar::JapaneseExtendedDateLengthsV1Marker, icu_datetime::provider::calendar::JapaneseExtendedDateSymbolsV1Marker, icu_datetime::provider::calendar::PersianDateLengthsV1Marker, icu_datetime::provider::calendar::PersianDateSymbolsV1Marker, icu_datetime::provider::calendar::RocDateLengthsV1Marker, icu_datetime::provider::calendar::RocDateSymbolsV1Marker);
+delegate!(icu_calendar::provider::Baked; icu_calendar::provider::ChineseCacheV1Marker, icu_calendar::provider::DangiCacheV1Marker, icu_calendar::provider::IslamicObservationalCacheV1Marker, icu_calendar::provider::IslamicUmmAlQuraCacheV1Marker, icu_calendar::provider::JapaneseErasV1Marker, icu_calendar::provider::JapaneseExtendedErasV1Marker, icu_calendar::provider::WeekDataV1Marker);
+delegate!(icu_experimental::provider::Baked; icu_experimental::dimension::provider::currency::CurrencyEssentialsV1Marker);
